@@ -64,7 +64,7 @@ let parse_op (f : string list) : op option =
   | ["gflags"; k] -> Some (OGetFlags (dec_bytes k))
   | ["len"] -> Some OLen | ["size"] -> Some OSize | ["dirty"] -> Some ODirty
   | ["iter"; r; lo; hi] -> Some (OIter (r = "1", dec_bytes lo, dec_bytes hi))
-  | ["iterf"; lo; hi] -> Some (OIterFlags (dec_bytes lo, dec_bytes hi))
+  | ["iterf"; r; lo; hi] -> Some (OIterFlags (r = "1", dec_bytes lo, dec_bytes hi))
   | ["sget"; k] -> Some (OSnapGet (dec_bytes k))
   | ["siter"; r; lo; hi] -> Some (OSnapIter (r = "1", dec_bytes lo, dec_bytes hi))
   | ["inspect"; h] -> Some (OInspect (nat_i (int_of_string h)))
@@ -111,6 +111,7 @@ let show_tree (o : art option) : string =
 let () =
   let s0 = ref init0 and s1 = ref init1 in
   let l2 : art option ref = ref None in
+  let bit : biter option ref = ref None in
   let l2checks = ref 0 and l2diffs = ref 0 in
   let seq = ref "" and idx = ref 0 and haz = ref false in
   let notes = ref [] and bad = ref false in
@@ -127,7 +128,7 @@ let () =
   read_lines (fun line ->
     match split_tab line with
     | "SEQ" :: id :: cls :: _ ->
-        s0 := init0; s1 := init1; l2 := None; seq := id; idx := 0; haz := false; notes := []; bad := false; seq_l0 := false;
+        s0 := init0; s1 := init1; l2 := None; bit := None; seq := id; idx := 0; haz := false; notes := []; bad := false; seq_l0 := false;
         Buffer.clear mutbuf; Buffer.clear out_lines; seq_struct := 0; seq_mut := 0;
         incr nseq; bump ("class:" ^ cls)
     | "END" :: _ ->
@@ -148,6 +149,22 @@ let () =
         let impl = String.concat " " res in
         incr nops;
         (match opf with
+         | ["bopen"; rv; lo; hi] ->
+             (* BatchedUse.v: a batched snapshot iterator kept across operations *)
+             let m = if !s1.stages1 = [] then "nostage"
+                     else begin bit := Some (bopen1 !s1 (rv = "1") (dec_bytes lo) (dec_bytes hi)); "ok" end in
+             incr l2checks; bump "op:bopen";
+             if m <> impl then begin incr mism; bad := true;
+               emit (Printf.sprintf "MISMATCH\t%s\t%d\t%s\timpl=%s\tl1=%s" !seq !idx (String.concat " " opf) impl m) end
+         | ["bnext"; n] ->
+             let m = (match !bit with
+                      | None -> "none"
+                      | Some it ->
+                          let ((l, v), it') = bnext1 !s1 it (nat_i (int_of_string n)) in
+                          bit := Some it'; show_out (RKVs l) ^ (if v then "|v" else "|x")) in
+             incr l2checks; bump "op:bnext";
+             if m <> impl then begin incr mism; bad := true;
+               emit (Printf.sprintf "MISMATCH\t%s\t%d\t%s\timpl=%s\tl1=%s" !seq !idx (String.concat " " opf) impl m) end
          | ["tree"] ->
              (* structure differential + the model's own map property: in-order(L2) = the keys of L1's table *)
              let m = show_tree !l2 in
